@@ -6,7 +6,7 @@ def rd(n): return open(os.path.join(V, "docs", n)).read()
 table = subprocess.run(["python3", os.path.join(V, "bin", "seedtable.py")], capture_output=True, text=True).stdout
 import glob, json
 rows = ["| change | what happened when it was first run, and what was added |", "|---|---|"]
-for d in sorted(glob.glob(os.path.join(V, "seeded", "*-[efghi]"))):
+for d in sorted(glob.glob(os.path.join(V, "seeded", "*-[efghij]"))):
     mp = os.path.join(d, "meta.json")
     if os.path.exists(mp):
         h = json.load(open(mp)).get("history", "").replace("|", "/").replace("\n", " ")
